@@ -7,12 +7,15 @@ package gohlslib
 
 import (
 	"math/big"
+
+	"github.com/bluenviron/mediacommon/v2/pkg/codecs/h264"
 )
 
 type munit struct {
 	w        wunit // the write that produced it
 	k        int   // index inside a multi-AU audio write
 	dts      int64 // in the track's clock rate, as written (no offset)
+	ptsOff   int64 // presentation time minus decode time (non-zero only for reordered H264)
 	ra       bool
 	data     [][]byte // NALUs / OBUs / [frame] for video, [au] for audio
 	dur      int64    // fMP4: duration = next.dts - this.dts (set when emitted)
@@ -48,12 +51,16 @@ type emodel struct {
 	eitherNoCutAt int // write index at which the model decided "no cut" on an either decision (-1 none)
 	// every unit accepted after the drop rules, in write order (fMP4: includes the look-ahead unit)
 	accepted [][]*munit
+	// h264b: decode times are derived from the written presentation times and picture order counts by mediacommon's
+	// DTS extractor (an external dependency of the library, used here as the definition of "the written decode time")
+	ext    []*h264.DTSExtractor
+	extErr error // the extractor rejected a unit the muxer accepted
 }
 
 func newModel(cfg muxCfg) *emodel {
 	n := len(cfg.Tracks)
 	return &emodel{eitherNoCutAt: -1, cfg: cfg, lead: cfg.leading(), fmp4: cfg.Variant != "mpegts", seenRA: make([]bool, n),
-		next: make([]*munit, n), emitted: make([][]*munit, n), accepted: make([][]*munit, n)}
+		next: make([]*munit, n), emitted: make([][]*munit, n), accepted: make([][]*munit, n), ext: make([]*h264.DTSExtractor, n)}
 }
 
 // offset10s is the constant added by the fMP4 variants, in the track's clock rate.
@@ -125,7 +132,7 @@ func (m *emodel) write(u wunit, data [][]byte) {
 		// parameter detection happens first, on whatever the unit carries
 		carries := false
 		switch t.Kind {
-		case "h264", "h265":
+		case "h264", "h264b", "h265":
 			carries = u.Params != 0
 		case "av1", "vp9":
 			carries = u.RA // sequence header / key-frame header always describe the parameters
@@ -148,7 +155,20 @@ func (m *emodel) write(u wunit, data [][]byte) {
 			}
 			m.seenRA[u.Track] = true
 		}
-		unit := &munit{w: u, dts: u.DTS, ra: u.RA, data: data}
+		dts := u.DTS
+		if t.Kind == "h264b" {
+			if m.ext[u.Track] == nil {
+				m.ext[u.Track] = &h264.DTSExtractor{}
+				m.ext[u.Track].Initialize()
+			}
+			d, err := m.ext[u.Track].Extract(data, u.DTS)
+			if err != nil {
+				m.extErr = err
+				return
+			}
+			dts = d
+		}
+		unit := &munit{w: u, dts: dts, ptsOff: u.DTS - dts, ra: u.RA, data: data}
 		m.accept(u.Track, unit, paramsChanged)
 		return
 	}
@@ -164,16 +184,25 @@ func (m *emodel) write(u wunit, data [][]byte) {
 		return
 	}
 	for k := 0; k < n; k++ {
-		step := int64(1024) // MPEG-4 audio: 1024 samples per access unit, ClockRate == sample rate
-		if t.Kind == "opus" {
-			step = 960 // 20 ms packets at 48 kHz
-			if m.cfg.OpusTicks != 0 {
-				step = int64(m.cfg.OpusTicks)
-			}
-		}
-		unit := &munit{w: u, k: k, dts: u.DTS + int64(k)*step, ra: true, data: [][]byte{data[k]}}
+		// MPEG-4 audio: 1024 samples per access unit (ClockRate == sample rate); Opus: the duration its TOC byte declares
+		unit := &munit{w: u, k: k, dts: u.DTS + m.cfg.audioSpan(t, k), ra: true, data: [][]byte{data[k]}}
 		m.accept(u.Track, unit, false)
 	}
+}
+
+// dtsUnderivable reports whether the decode time of u cannot be derived (h264b): the Write call must fail and the word
+// ends there. It consumes the extractor state, so nothing may be written afterwards.
+func (m *emodel) dtsUnderivable(u wunit, data [][]byte) bool {
+	if m.cfg.Tracks[u.Track].Kind != "h264b" || (!m.seenRA[u.Track] && !u.RA) {
+		return false
+	}
+	ext := m.ext[u.Track]
+	if ext == nil {
+		ext = &h264.DTSExtractor{}
+		ext.Initialize()
+	}
+	_, err := ext.Extract(data, u.DTS)
+	return err != nil
 }
 
 func (m *emodel) accept(track int, u *munit, paramsChanged bool) {
